@@ -38,7 +38,9 @@ INPUTS = {
 }
 MODES = {'replace': lambda n: ['--replace', n], 'no_backup': lambda n: ['--no-backup', n], 'f_o_same': lambda n: ['-f', n, '-o', n],
          'replace_mtime': lambda n: ['--replace', '--mtime', n], 'replace_ifc': lambda n: ['--replace', '--if-changed', n],
-         'no_backup_ifc': lambda n: ['--no-backup', '--if-changed', n]}
+         'no_backup_ifc': lambda n: ['--no-backup', '--if-changed', n],
+         # the same file under another spelling is "-o equal to -f" as well
+         'f_o_dotslash': lambda n: ['-f', n, '-o', './' + n]}
 NAME = 'src.c'
 
 
@@ -276,6 +278,7 @@ def main(ctx):
         for m in ('replace_ifc', 'no_backup_ifc'):
             for i in ('small', 'large'):
                 cs.append((m, i, 'none', thorough))
+        cs.append(('f_o_dotslash', 'small', 'none', thorough))
     tasks = []
     for res in core.pmap(_plan, cs):
         if isinstance(res, dict):        # worker exception
